@@ -4,41 +4,40 @@ import (
 	"bytes"
 	"crypto"
 	"fmt"
-	"io"
+	"os"
+	"strings"
 	"time"
 
 	"golang.org/x/crypto/openpgp"
 	"golang.org/x/crypto/openpgp/packet"
+	"verif/ref/pgpfix"
 	"verif/vf"
 )
 
 func main() {
-	text := []byte("Signed message\nline 2 \t\r\n\n- dash line\nlast line without newline")
-	var buf bytes.Buffer
-	cfg := &packet.Config{Rand: vf.NewRand("x"), DefaultHash: crypto.SHA1, DefaultCipher: packet.Cipher3DES, DefaultCompressionAlgo: packet.CompressionZIP, Time: func() time.Time { return time.Unix(1704153600, 0) }}
-	w, _ := openpgp.SymmetricallyEncrypt(&buf, []byte("pw"), &openpgp.FileHints{IsBinary: true, FileName: "file.bin"}, cfg)
-	w.Write(text)
-	w.Close()
-	orig := buf.Bytes()
-	fmt.Printf("%x\n", orig)
-	for off := 15; off < len(orig); off++ {
-		for _, x := range []byte{orig[off] ^ 1, orig[off] ^ 0x80, orig[off] ^ 0x1b} {
-			m := append([]byte{}, orig...)
-			m[off] = x
-			calls := 0
-			md, err := openpgp.ReadMessage(bytes.NewReader(m), openpgp.EntityList{}, func(k []openpgp.Key, s bool) ([]byte, error) {
-				calls++
-				if calls > 2 {
-					return nil, fmt.Errorf("stop")
-				}
-				return []byte("pw"), nil
-			}, nil)
+	pub, _ := openpgp.ReadArmoredKeyRing(bytes.NewReader(pgpfix.Pub("rsa")))
+	g, why := pgpfix.NewGPG("dev")
+	if g == nil {
+		panic(why)
+	}
+	defer g.Close()
+	for i, msg := range []string{"line1\nline2\r\nline3", "a", "hello world, this is longer text\n"} {
+		for _, fn := range []string{"file.bin", strings.Repeat("n", 300), strings.Repeat("n", 200)} {
+			var buf bytes.Buffer
+			cfg := &packet.Config{Rand: vf.NewRand(fmt.Sprint("x", i, len(fn))), DefaultHash: crypto.SHA1, DefaultCipher: packet.CipherAES192, Time: func() time.Time { return time.Unix(1704153600, 0) }}
+			w, err := openpgp.Encrypt(&buf, []*openpgp.Entity{pub[0]}, nil, &openpgp.FileHints{IsBinary: true, FileName: fn}, cfg)
 			if err != nil {
-				continue
+				panic(err)
 			}
-			b, err := io.ReadAll(md.UnverifiedBody)
-			if err == nil {
-				fmt.Println("ACCEPTED off", off, "sub", x, "was", orig[off], bytes.Equal(b, text), md.LiteralData.FileName)
+			w.Write([]byte(msg))
+			w.Close()
+			f := g.File("m", buf.Bytes()) + ".gpg"
+			os.Rename(strings.TrimSuffix(f, ".gpg"), f)
+			out, serr, err := g.Run(nil, "--status-fd", "1", "--decrypt-files", f)
+			ok := strings.Contains(string(out), "DECRYPTION_OKAY")
+			fmt.Println(i, len(fn), "ok:", ok, err)
+			if !ok {
+				fmt.Println(string(out), string(serr))
 			}
 		}
 	}
